@@ -196,7 +196,32 @@ class Conds:
             return self.atom(f'{call_name(e)}[{self.text(inner)}]', e0)
         if isinstance(e, ast.Call) and call_name(e) == 'isinstance' and len(e.args) == 2:
             return self.atom(f'isinstance[{self.text(e.args[0])},{self.text(e.args[1])}]', e0)
+        if isinstance(e, ast.Call) and self.depth < 3 and not e.keywords and not any(isinstance(a, ast.Starred) for a in e.args):
+            f = self._predicate(e)
+            if f is not None:
+                return f
         return self.atom(f'truth[{self.text(e)}]', e0)
+
+    def _predicate(self, call):
+        """A call of a module-level project function that only tests and returns (no raise, no loop left after
+        normalisation, no assignment): the disjunction of its return conditions, parameters renamed to the arguments."""
+        g = self.prog.functions.get(self.prog.resolve(self.fn.module, call.func) or '')
+        if g is None or g.cls is not None or g.outer is not None or g is self.fn or len(call.args) != len(g.params) or g.vararg or g.kwarg:
+            return None
+        for n in walk_no_nested(g.node):
+            if isinstance(n, (ast.Raise, ast.Assert, ast.For, ast.While, ast.Try, ast.With, ast.Assign, ast.AugAssign, ast.Yield, ast.YieldFrom)):
+                return None
+        rename = {p: '(' + self.text(a) + ')' if not isinstance(self._inline(a), (ast.Name, ast.Attribute, ast.Constant)) else self.text(a)
+                  for p, a in zip(g.params, call.args)}
+        sub = Conds(self.prog, g, rename=rename, depth=self.depth + 1)
+        _normal, _raises, rets = sub.exits()
+        out = []
+        for st, c in rets:
+            if st.value is None:
+                continue
+            out.append(f_and(c, sub.formula(st.value)))
+        self.nodes.update(sub.nodes)
+        return f_or(*out) if out else False
 
     def _cmp(self, a, op, b, node):
         ta, tb = self.text(a), self.text(b)
